@@ -263,6 +263,8 @@ def b_configs(job):
         body = G.dlgraph_history(g, rng)
     elif job.get("mode") == "diamond":
         body = G.diamond_history(g, rng)
+    elif job.get("mode") == "guarded":
+        body = G.guarded_history(g, rng)
     elif job.get("mode") == "cnf":
         # clause sets over few, closely related atoms (small constants: equal and opposite bounds, zero-weight cycles)
         body = cnf_history(g, rng, n_atoms=job.get("n_atoms", 7), levels=job.get("levels", 4))
